@@ -77,6 +77,23 @@ inline Csr<double> oneway_convection(int nx, int ny, double c, double shift, Rng
     return A;
 }
 
+// Partially convective problem: -Laplace(u) + p(y) du/dx, first-order upwind, on an nx x ny grid; the convection coefficient p is present
+// on the lowest `conv_lines` grid lines only.  A non-symmetric, diagonally dominant M-matrix whose strength-of-connection graph is
+// non-symmetric on part of the grid: cut into strips of grid lines, only some ranks see the non-symmetry (PMIS aggregates vanish there only).
+inline Csr<double> partly_convective(int nx, int ny, int conv_lines, double pe) {
+    Csr<double> A((size_t)nx * ny, (size_t)nx * ny);
+    for (int j = 0; j < ny; ++j) for (int i = 0; i < nx; ++i) { ptrdiff_t id = (ptrdiff_t)j * nx + i; double pc = j < conv_lines ? pe : 0.0;
+        if (j > 0) A.push(id - nx, -1.0); if (i > 0) A.push(id - 1, -1.0 - pc); A.push(id, 4.0 + pc); if (i + 1 < nx) A.push(id + 1, -1.0); if (j + 1 < ny) A.push(id + nx, -1.0); A.end_row(); }
+    return A;
+}
+struct ConvSpec { int nx, ny, conv_lines; double pe; };
+inline Csr<double> random_partly_convective(Rng &r, int ranks, ConvSpec &cs, Part &rp, int nxmax = 32) {
+    cs.nx = (int)r.range(12, nxmax); cs.ny = (int)r.range(std::max(12, 4 * ranks), std::max(24, 6 * ranks) + 12); cs.pe = r.coin(0.5) ? 25.0 : r.uni(10.0, 40.0);
+    int frac = (int)r.range(0, 2); cs.conv_lines = frac == 0 ? cs.ny / 3 : (frac == 1 ? cs.ny / 2 : cs.ny / 4);
+    rp.assign(ranks + 1, 0); for (int k = 0; k <= ranks; ++k) rp[k] = (ptrdiff_t)((long)cs.ny * k / ranks) * cs.nx;      // strips of whole grid lines
+    return partly_convective(cs.nx, cs.ny, cs.conv_lines, cs.pe);
+}
+
 //---------------------------------------------------------------------------
 // Gather helpers
 //---------------------------------------------------------------------------
